@@ -1,8 +1,8 @@
-    use crate::{PathBuf, PacketTransport, VSource, VSink, VFiles, Result, ZVTError, IntoVErr, ZvtParser, ZvtSerializer, ACK_BYTES, data_block, disk, wd_bytes};
+    use crate::{Path, PathBuf, HashMap, VMap, path_join, fs_exists, path_utf8, PacketTransport, VSource, VSink, VFiles, Result, ZVTError, IntoVErr, ZvtParser, ZvtSerializer, ACK_BYTES, data_block, disk, wd_bytes};
     use crate::n6::*;
     use crate::std;
     // the source file's own `use` list is not extracted: these are the std names a (changed) body may use unqualified
-    use crate::std::io::{Read, Seek, SeekFrom};
+    use crate::std::io::{Read, Seek, SeekFrom, Error, ErrorKind};
     use crate::std::os::unix::fs::FileExt;
 
     /// offset of the j-th packet boundary in the byte stream `b`
@@ -62,9 +62,61 @@
     }
     pub open spec fn is_final(p: WriteFileResponse) -> bool { p is CompletionData || p is Abort }
 
-    /// `convert_dir`: std::path / directory probing — outside reach (trusted shell; the id table is not verified)
-    #[verifier::external_body]
-    pub fn convert_dir(dir: &crate::PathBuf) -> (r: Result<VFiles>) { unimplemented!() }
+    /// the recognised payload files and their ids (Feig cVEND update manual as cited in the source; frozen table)
+    pub open spec fn recognised() -> Seq<(Seq<char>, u8)> {
+        seq![
+            ("firmware/kernel.gz"@, 0x10u8),
+            ("firmware/rootfs.gz"@, 0x11u8),
+            ("firmware/components.tar.gz"@, 0x12u8),
+            ("firmware/update.spec"@, 0x13u8),
+            ("firmware/update_extended.spec"@, 0x14u8),
+            ("app0/update.spec"@, 0x20u8),
+            ("app0/update.tar.gz"@, 0x21u8),
+            ("app1/update.spec"@, 0x22u8),
+            ("app1/update.tar.gz"@, 0x23u8),
+            ("app2/update.spec"@, 0x24u8),
+            ("app2/update.tar.gz"@, 0x25u8),
+            ("app3/update.spec"@, 0x26u8),
+            ("app3/update.tar.gz"@, 0x27u8),
+            ("app4/update.spec"@, 0x28u8),
+            ("app4/update.tar.gz"@, 0x29u8),
+            ("app5/update.spec"@, 0x30u8),
+            ("app5/update.tar.gz"@, 0x31u8),
+            ("app6/update.spec"@, 0x32u8),
+            ("app6/update.tar.gz"@, 0x33u8),
+            ("app7/update.spec"@, 0x34u8),
+            ("app7/update.tar.gz"@, 0x35u8)
+        ]
+    }
+    /// id -> full path of the first `j` table rows whose file exists below `dir`
+    pub open spec fn dir_map(dir: Seq<char>, j: int) -> Map<u8, Seq<char>>
+        decreases j
+    {
+        if j <= 0 { Map::<u8, Seq<char>>::empty() } else {
+            let m = dir_map(dir, j - 1);
+            let full = path_join(dir, recognised()[j - 1].0);
+            if fs_exists(full) { m.insert(recognised()[j - 1].1, full) } else { m }
+        }
+    }
+    //@ fn src:zvt/src/feig/sequences.rs | free | convert_dir | forslice all-loops props=C11
+        requires
+            // the directory name is valid Unicode (otherwise `into_string().unwrap()` panics; outside C11's quantifier)
+            path_utf8(dir.text()),
+        ensures
+    //@ tag upload.table C11
+            // exactly the recognised files that exist below the directory, under their ids, with their full paths
+            r matches Ok(m) ==> m.paths() =~= dir_map(dir.text(), 21),
+            // an error exactly when none of them exists
+            r is Err <==> dir_map(dir.text(), 21) =~= Map::<u8, Seq<char>>::empty(),
+    //@ loop 0
+            invariant
+                __i <= 21, __it@.len() == 21,
+                path_utf8(dir.text()),
+                forall|k: int| 0 <= k < 21 ==> (#[trigger] __it@[k]).0.text() == recognised()[k].0 && __it@[k].1 == recognised()[k].1 && path_utf8(__it@[k].0.text()),
+    //@ tag upload.table.inv C11
+                out.paths() =~= dir_map(dir.text(), __i as int),
+            decreases 21 - __i,
+    //@ end
     /// one announcement entry per recognised file, carrying its id and its true size and nothing else
     pub open spec fn manifest_ok(p: Seq<super::packets::tlv::File>, files: &VFiles) -> bool {
         forall|i: int| 0 <= i < p.len() ==> {
@@ -75,8 +127,14 @@
         }
     }
     /// first half of WriteFile::into_stream: everything in front of the statement that sends the announcement
-    pub fn write_file_manifest(path: crate::PathBuf, password: usize) -> (r: Result<(VFiles, super::packets::WriteFile)>)
+    /// (`path` is a `PathBuf` in the source; `&path` derefs to the `&Path` that `convert_dir` takes)
+    pub fn write_file_manifest(path: &Path, password: usize) -> (r: Result<(VFiles, super::packets::WriteFile)>)
+        requires
+            path_utf8(path.text()),
         ensures
+    //@ tag upload.announce.table C11
+            // ... and the map is exactly the recognised files that exist below the payload directory
+            r matches Ok((files, packet)) ==> files.paths() =~= dir_map(path.text(), 21),
     //@ tag upload.announce C11
             // the announced list has exactly one entry per recognised file present (in the map's iteration order), with that
             // file's id and true size
